@@ -1331,6 +1331,18 @@ def d5_header(ctx):
               'the header block can end before (or never at) the blank line - a test such as `not line.strip()` also ends it at a '
               'whitespace-only continuation line: the body would start at the wrong byte', f.loc(loop),
               path=describe_path(p) if p else None)
+    # the collected block is divided into field lines at LF / CRLF only.  str.splitlines() also breaks at VT, FF, FS, GS, RS,
+    # NEL (\x85 - a plain byte of a Latin-1 decoded value), LS and PS: a field value containing one starts a new "field",
+    # e.g. a second Content-Length that re-frames the message
+    NV = 'wpull.namevalue'
+    for q in (NV + ':NameValueRecord.parse', NV + ':unfold_lines'):
+        g = repo.func(q)
+        bad_sl = [c for c in U.calls(g.node) if U.attr_name(c) == 'splitlines'
+                  and not (isinstance(c.func.value, ast.Constant) and isinstance(c.func.value.value, bytes))]
+        ck.expect(not bad_sl, 'C08-D5', g.qual, 'field lines are separated at LF / CRLF only',
+                  '%s splits the (Latin-1 decoded) header text with str.splitlines(), which also breaks at \\x0b \\x0c \\x1c-\\x1e \\x85 '
+                  '\\u2028 \\u2029: `X-A: b\\x85Content-Length: 2` yields an extra Content-Length field and the body is delimited by it'
+                  % g.name, g.loc(bad_sl[0]) if bad_sl else g.loc())
     # every non-blank line is collected and counted; the block is capped
     okapp = len(apps) == 1
     p = path_avoiding(cfg, rl, lambda m: m is rl, stop=lambda m: m in apps) if okapp else None
